@@ -1205,25 +1205,25 @@ FINDINGS = [
      "class": "LangDataLoader, num_length_buckets > 1, suppress_uttids=True, non-empty data set",
      "witness": {"lens": [1], "bs": 1, "nb": 2, "dyn": False, "drop": False, "shuffle": False, "sort": False, "bf": False, "sup_utt": True, "refkind": "1d", "seed": 3}},
     {"id": "KF-C14-4", "property": "C14", "clause": "C14.loader.deprecated",
-     "what": "SpectTrainingDataLoader / SpectEvaluationDataLoader pass seed positionally into SpectDataLoader's on_uneven_distributed slot: construction always raises ValueError "
-             "(and the seed would be lost)",
-     "class": "cls in {SpectTrainingDataLoader, SpectEvaluationDataLoader}, any arguments",
+     "what": "SpectTrainingDataLoader / SpectEvaluationDataLoader pass seed positionally into SpectDataLoader's on_uneven_distributed slot: construction raises ValueError; with drop_last "
+             "(which overrides that slot) construction succeeds but the seed is lost, so equal (seed, epoch) give different batches",
+     "class": "cls in {SpectTrainingDataLoader, SpectEvaluationDataLoader}: every construction without drop_last; with drop_last the shuffled order ignores seed",
      "witness": {"cls": "SpectEvaluationDataLoader", "lens": [], "bs": 1, "drop": False, "seed": None}},
     {"id": "KF-C14-5", "property": "C14", "clause": "C14.loader.dist",
      "what": "SpectDataLoader/LangDataLoader cache len() from the first epoch asked; with length buckets, shuffling and a process group of more than one rank the number of this rank's "
              "utterances per bucket, hence the number of batches, changes from epoch to epoch and len(loader) goes stale",
-     "class": "num_length_buckets > 1, shuffle, process group with W > 1 not ignored, epoch later than the first one whose len() was taken",
-     "witness": None},
+     "class": "num_length_buckets > 1, shuffle, process group with W > 1 that is not ignored (drop_last overrides 'ignore'), any epoch after the one in which len() was first taken",
+     "witness": {"kind": "spect", "lens": [1, 1, 3], "W": 2, "mode": "uneven", "seed": 2, "epochs": 2, "bs": 2, "nb": 2, "dyn": False, "drop": False, "shuffle": True}},
 ]
 
 KNOWN_MATCH = {
     "KF-C14-1": lambda case, msg: len(case["lens"]) == 0 and "IndexError" in msg,
-    "KF-C14-2": lambda case, msg: bool(case["dyn"]) and len(case["lens"]) > 0 and min(case["lens"]) == 0 and "ZeroDivisionError" in msg,
-    "KF-C14-3": lambda case, msg: bool(case.get("sup_utt")) and case["nb"] > 1 and len(case["lens"]) > 0 and "refkind" in case and "with_ali" not in case
+    "KF-C14-2": lambda case, msg: bool(case.get("dyn")) and len(case["lens"]) > 0 and min(case["lens"]) == 0 and "ZeroDivisionError" in msg,
+    "KF-C14-3": lambda case, msg: bool(case.get("sup_utt")) and case.get("nb", 1) > 1 and len(case["lens"]) > 0 and "refkind" in case and "with_ali" not in case
     and ("IndexError" in msg or "length classes" in msg),
-    "KF-C14-4": lambda case, msg: case.get("cls") in ("SpectTrainingDataLoader", "SpectEvaluationDataLoader") and "on_uneven_distributed" in msg and "ValueError" in msg,
-    "KF-C14-5": lambda case, msg: case.get("nb", 1) > 1 and bool(case.get("shuffle")) and case.get("W", 1) > 1 and case.get("mode") != "ignore" and "len(loader) =" in msg
-    and "epoch 0:" not in msg and ", epoch 0" not in msg,
+    "KF-C14-4": lambda case, msg: case.get("cls") in ("SpectTrainingDataLoader", "SpectEvaluationDataLoader") and (("on_uneven_distributed" in msg and "ValueError" in msg) or (bool(case.get("drop")) and "same (seed, epoch)" in msg)),
+    "KF-C14-5": lambda case, msg: case.get("nb", 1) > 1 and bool(case.get("shuffle")) and (case.get("W") or 1) > 1 and (case.get("mode") != "ignore" or bool(case.get("drop"))) and "len(loader) =" in msg
+    and ", epoch 0:" not in msg,
 }
 
 CHECKERS = {
